@@ -440,7 +440,7 @@ def SHARDS(tier):
 def run(ctx):
     sh = ctx.shard
     if sh.get("layer", 1) == 1:
-        ctx.search(l1_case(sh.get("ser")), run_case, ctx.n(1200, 12000), nontrivial=_nontrivial, labels=_labels, name="l1" + sh.get("ser", ""))
+        ctx.search(l1_case(sh.get("ser")), run_case, ctx.n(700, 12000), nontrivial=_nontrivial, labels=_labels, name="l1" + sh.get("ser", ""))
     else:
         _live["keep"] = True
         _live["servertype"] = sh["servertype"]
@@ -448,7 +448,7 @@ def run(ctx):
             def rc(case):
                 case = dict(case, servertype=sh["servertype"])
                 return run_l2(case)
-            ctx.search(l2_case(sh["ser"]), rc, ctx.n(350, 4000), nontrivial=_nontrivial,
+            ctx.search(l2_case(sh["ser"]), rc, ctx.n(250, 4000), nontrivial=_nontrivial,
                        labels=lambda c: _labels(c) + ["server:" + sh["servertype"]], name="l2" + sh["ser"])
         finally:
             _live["keep"] = False
